@@ -34,7 +34,7 @@ func init() {
 	Register(&Check{
 		ID:    "C04",
 		Level: "exploration",
-		Rule: "(A) all priority vectors over 3 services for one tag, each service in {not tagged, -1, 0 string form, 0 map form, 1, maxint} (6^3; thorough adds minint and a second tag: 7^3 + 12^3), consumers requesting !tagged as constructor argument, field and call argument; (B) all decorator/tag incidence matrices for 2 decorators x 2 tags x 2 services (4 x 16) x 3 decorator argument sets; (C) 3 decorators and split tag lists distributed over 3 files in all 27 assignments; (D) scopes of tagged services (shared, non_shared, contextual). " +
+		Rule: "(A) all priority vectors over 3 services for one tag, each service in {not tagged, -1, 0 string form, 0 map form, 1, maxint} (6^3; thorough adds minint and a second tag: 7^3 + 12^3), consumers requesting !tagged as constructor argument, field and call argument; (B) all decorator/tag incidence matrices for 2 decorators x 2 tags x 2 services (4 x 16) x 3 decorator argument sets; (C) 3 decorators and split tag lists distributed over 3 files in all 27 assignments; (E) tag lists of two services extended by later files in all 8 combinations; (D) scopes of tagged services (shared, non_shared, contextual). " +
 			"Each configuration is executed in a probe (Get consumer, GetTaggedBy, Get of every carrier, GetInContext) and compared with the reference model. non-trivial/distinct = distinct executed configuration",
 		Assumptions: []string{"decorator tag '*' is outside the statement (the documentation does not define it) and is not generated"},
 		BudgetQuick: 280 * time.Second, BudgetThorough: 1500 * time.Second,
@@ -177,6 +177,41 @@ func init() {
 					fl = append(fl, File{fmt.Sprintf("f%d.yaml", i), f.YAML()})
 				}
 				cases = append(cases, &BCase{ID: fmt.Sprintf("C/files=%d%d%d", asg[0], asg[1], asg[2]), Cfg: merged, Files: fl, Sessions: []BSession{{Ops: stdOps()}}})
+			}
+			// (E) the tag list of one service split over 2..3 files (appended in file order), every file contributing tags
+			for v := 0; v < 8; v++ {
+				f0 := &Cfg{Meta: stdMeta(), Services: []Service{
+					{Name: "sa", Constructor: P("pk.New1"), Tags: []Tag{{Name: "t", Priority: P(2)}}},
+					{Name: "sb", Constructor: P("pk.New2"), Tags: []Tag{{Name: "t"}}},
+					{Name: "sc", Constructor: P("pk.New3"), Tags: []Tag{{Name: "u"}}},
+					{Name: "consumer", Constructor: P("pk2.New"), Args: []any{"!tagged t", "!tagged u"}}},
+					Decorators: []Decorator{{Tag: "t", Decorator: "pk.Dec1"}}}
+				merged := &Cfg{Meta: stdMeta(), Decorators: []Decorator{{Tag: "t", Decorator: "pk.Dec1"}}}
+				ta := []Tag{{Name: "t", Priority: P(2)}}
+				tb := []Tag{{Name: "t"}}
+				files := []*Cfg{f0}
+				if v&1 != 0 {
+					files = append(files, &Cfg{Services: []Service{{Name: "sa", Tags: []Tag{{Name: "u", Priority: P(-1)}}}}})
+					ta = append(ta, Tag{Name: "u", Priority: P(-1)})
+				}
+				if v&2 != 0 {
+					files = append(files, &Cfg{Services: []Service{{Name: "sb", Tags: []Tag{{Name: "u", Priority: P(9)}, {Name: "w"}}}}, Decorators: []Decorator{{Tag: "u", Decorator: "pk2.Dec2"}}})
+					tb = append(tb, Tag{Name: "u", Priority: P(9)}, Tag{Name: "w"})
+					merged.Decorators = append(merged.Decorators, Decorator{Tag: "u", Decorator: "pk2.Dec2"})
+				}
+				if v&4 != 0 {
+					files = append(files, &Cfg{Services: []Service{{Name: "sa", Tags: []Tag{{Name: "w", MapForm: true}}}}, Decorators: []Decorator{{Tag: "w", Decorator: "pk.Dec3", Args: []any{"last"}}}})
+					ta = append(ta, Tag{Name: "w", MapForm: true})
+					merged.Decorators = append(merged.Decorators, Decorator{Tag: "w", Decorator: "pk.Dec3", Args: []any{"last"}})
+				}
+				merged.Services = []Service{
+					{Name: "sa", Constructor: P("pk.New1"), Tags: ta}, {Name: "sb", Constructor: P("pk.New2"), Tags: tb}, {Name: "sc", Constructor: P("pk.New3"), Tags: []Tag{{Name: "u"}}},
+					{Name: "consumer", Constructor: P("pk2.New"), Args: []any{"!tagged t", "!tagged u"}}}
+				var fl []File
+				for i, f := range files {
+					fl = append(fl, File{fmt.Sprintf("f%d.yaml", i), f.YAML()})
+				}
+				cases = append(cases, &BCase{ID: fmt.Sprintf("E/split-tags=%03b", v), Cfg: merged, Files: fl, Sessions: []BSession{{Ops: stdOps(opTag("tagged", "w"))}}})
 			}
 			// (D) scopes of carriers
 			scopes := []*string{nil, P("shared"), P("non_shared"), P("contextual")}
